@@ -230,3 +230,52 @@ def check_serialize(c1: int, c2: int, v1: int, v2: int) -> bool:
     if text != exp:
         LAST_DIFF = ('serialize_instance', text, exp); return False
     return True
+
+
+LOADED_TEXT = """CREATE TABLE Tt (Id UNIQUE_ID);
+CREATE TABLE Kl (Id UNIQUE_ID, Ab INTEGER);
+CREATE ROP REF_ID R1 FROM 1C Kl (Id) TO 1 Tt (Id);
+CREATE UNIQUE INDEX I1 ON Kl (Id);
+INSERT INTO Tt VALUES (1001);
+INSERT INTO Tt VALUES (2002);
+INSERT INTO Kl VALUES (1001, 5);
+"""
+
+
+def check_loaded(op: int, s1: int, s2: int, v: int) -> bool:
+    """
+    pre: 0 <= op < 4 and 0 <= s1 < 4 and 0 <= s2 < 4 and 0 <= v < 2
+    post: POST(_)
+    """
+    # a LOADED instance whose identifying attribute is also referential (subtype style): after
+    # re-relating it / rewriting the referred identifier / writing the plain attribute, every
+    # spelling reads the live value, where_eq matches it and the serialized value agrees
+    global LAST_DIFF
+    op = cs(op, 0, 3); s1 = cs(s1, 0, 3); s2 = cs(s2, 0, 3); v = cs(v, 0, 1) + 40
+    with notrace():
+        l = xtuml.ModelLoader(); l.input(LOADED_TEXT)
+        m = l.build_metamodel()
+        k = m.select_one('Kl'); t1, t2 = list(m.select_many('Tt'))
+    exp_id = 1001
+    if op == 1:
+        xtuml.unrelate(k, t1, 1); xtuml.relate(k, t2, 1); exp_id = 2002
+    elif op == 2:
+        setattr(t1, sp('id', s1), 3003); exp_id = 3003
+    elif op == 3:
+        xtuml.unrelate(k, t1, 1); exp_id = None
+    setattr(k, sp('ab', s1), v)
+    case('loaded', op, s1, s2)
+    got = read(k, sp('id', s2))
+    if got is ABSENT or (got != exp_id if exp_id is not None else got is not None):
+        LAST_DIFF = ('identifier read under spelling %s' % sp('id', s2), repr(got), exp_id); return False
+    if read(k, sp('ab', s2)) != v:
+        LAST_DIFF = ('plain read',); return False
+    if exp_id is not None:
+        sel = m.select_many('kl', where_eq(**{sp('id', s2): exp_id}))
+        if len(sel) != 1:
+            LAST_DIFF = ('where_eq on the identifier under spelling %s' % sp('id', s2), len(sel)); return False
+        with notrace():
+            txt = xtuml.serialize_instance(k)
+        if xtuml.serialize_value(exp_id, 'UNIQUE_ID') not in txt:
+            LAST_DIFF = ('serialized identifier', txt); return False
+    return True
